@@ -501,7 +501,39 @@ def check_C19(chk, tier):
         run_phase(chk, "factor(asan)/z", H + "h_factor.c", [c for c in fc if c[1] <= 2 or c[14] != -1][:150], ["C19."], prec="z", budget_s=900, bounds="complex factor lifecycle", env=CPLX_ENV, **kw)
 
 
-REGISTRY = {"C19": check_C19, "C20": check_C20, "C07": check_C07, "C14": check_C14, "C10": check_C10, "C08": check_C08, "C18": check_C18, "C05": check_C05, "C06": check_C06, "C01": check_C01, "C02": check_C02, "C03": check_C03, "C04": check_C04}
+# ------------------------------------------------------------------------------------------------ C09 reentrancy / determinism
+def check_C09(chk, tier):
+    chk.level = "other"
+    chk.assumptions += ["claim shape: non-interference => schedule independence. If no library routine writes mutable storage other than objects reachable from its arguments, its own stack and blocks it allocated during the call, any interleaving of calls on disjoint data equals a serial order (malloc/free thread-safe by contract). True thread interleavings of whole calls are NOT explored (outside what the solver can reach here; DESIGN 10).",
+                        "premise checked three ways: (1) IR-wide scan of the linked library module of each precision for stores whose underlying object is a global/static; (2) store monitor on every symbolically explored path of the determinism harness and of the driver harnesses; (3) solver-level determinism: f(args); unrelated call; f(args) again must return identical terms (layer T)"]
+    import e2
+    # (1) static scan, four precisions
+    scan = {"phase": "static scan of library IR for stores to globals", "engine": "slusym-instr (LLVM-14)", "states": 1, "transitions": 1, "obligations": 0, "discharged": 0, "exhaustive": True, "per_precision": {}}
+    for prec in "dszc":
+        b = e2.Build(os.path.join(chk.scratch, "scan_" + prec), prec).build_lib(); exe = b.build_harness(H + "h_determ.c", "scan")
+        t = b.table; scan["obligations"] += 1
+        scan["per_precision"][prec] = {"functions": len(t["functions"]), "mutable_library_globals": t["lib_globals"][:30], "stores_to_globals": t["global_stores"][:30]}
+        if t["global_stores"]:
+            for g in t["global_stores"][:10]:
+                chk.violation({"engine": "scan", "harness": "static", "assert_id": "store-to-global", "site": "%s:%s" % (g["function"], g["global"]), "prec": prec}, "library function %s stores to library global/static '%s' (line %s, precision %s)" % (g["function"], g["global"], g["line"], prec), g)
+        else: scan["discharged"] += 1
+    chk.phases.append(scan); chk.samples.append({"phase": "static scan", **{k: v for k, v in scan["per_precision"]["d"].items()}})
+    # (2)+(3) determinism harness with the store monitor
+    q = tier == "quick"
+    for prec in (["d", "z"] if q else list("dzsc")):
+        cs = []
+        for mode in (0, 1, 2):
+            for n, pat, sc, bs in [(2, 15, 0, 1), (3, C.band(3, 1, 1), 0, 1), (3, 511, 0, 0), (5, C.dense(5, 5), 0, 0), (6, C.band(6, 2, 2), 0, 0)] + ([(2, 0b1101, 2, 1)] if prec == "d" else []) + ([] if q else [(9, C.arrow(9), 0, 0), (10, C.dense(10, 10), 0, 0), (2, 15, 2, 1), (3, 511, 4, 1)]):
+                if prec in "zc" and q and (bs == 1 or n > 5): continue
+                cs.append((n, hex(pat)) + tuple(T["t122" if n < 5 else "tn1n"]) + (sc, mode, bs))
+        run_phase(chk, "determinism+store-monitor/" + prec, H + "h_determ.c", cs, ["C09."], prec=prec, budget_s=200 if q else 900, monitor_ids=("global_stores",), validate_samples=0,
+                  bounds="?gssvx (equil+cond+refine+growth), ?gsisx (SMILU_2), ?gssv; n<=6 (10 thorough); repeat after an unrelated call with other options", qtimeout_ms=5000 if q else 30000, env=CPLX_ENV if prec in "zc" else None)
+    # monitor on driver harness paths as well
+    xc = [xcase(2, 0b1101, hist=h, trans=t, symcols=2) for h, t in ((14, 12), (134, 121))] + [xcase(2, 15, symcols=0, equil=1, refine=1, cond=1, growth=1)]
+    run_phase(chk, "store-monitor/gssvx", H + "h_gssvx.c", xc, ["C09."], prec="d", budget_s=120, monitor_ids=("global_stores",), validate_samples=0, bounds="expert-driver histories under the store monitor")
+
+
+REGISTRY = {"C09": check_C09, "C19": check_C19, "C20": check_C20, "C07": check_C07, "C14": check_C14, "C10": check_C10, "C08": check_C08, "C18": check_C18, "C05": check_C05, "C06": check_C06, "C01": check_C01, "C02": check_C02, "C03": check_C03, "C04": check_C04}
 
 
 def run(pid, tier):
